@@ -9,25 +9,25 @@ E3 = "stateless exhaustive reply/answer-tree enumeration of the real code agains
 
 CHECKS = {
  "C01": dict(engine="E1 enum", sec="4/C01", technique=E1,
-   text="Every frame of the enumerated product (all 65536 addresses x all 256 types x {empty, 1-byte} data; every length 1..255 x every position x every byte value; boundary lengths) is encoded by the real encoder, compared byte-for-byte with an arithmetic reference encoder, checked for zero-sum/upper-case/CRLF shape, decoded from both encodings and compared with the original; Data::try_new is tried for every length 0..300 and beyond. Exhaustive over that stated domain, which is what a round-trip claim over 'all frames' needs because the codec does not branch on data values.",
+   text="Every frame of the enumerated product (all 65536 addresses x all 256 types x {empty, 1-byte} data; every length 1..255 x every position x every byte value; boundary lengths) is encoded by the real encoder, compared byte-for-byte with an arithmetic reference encoder, checked for zero-sum/upper-case/CRLF shape, decoded from both encodings and compared with the original; Data::try_new is tried for every length 0..300 and beyond; all ordered pairs and triples of frames built to collide on length/address/type/byte sum are encoded and decoded in sequence on a fresh thread (no state may carry over between calls). Exhaustive over that stated domain, which is what a round-trip claim over 'all frames' needs because the codec does not branch on data values.",
    note="Trusts the 25-line arithmetic reference encoder; joint variation of several data bytes only through two backgrounds."),
  "C02": dict(engine="E1 enum", sec="4/C02", technique="exhaustive single-fault enumeration over the wire string of every base frame, decided on the real decoder",
    text="For every base frame (10 addresses x 10 types x data blocks of 0..3, 16 and 64/128/255 bytes, plus constructed frames that embed a complete inner frame) and both encodings, EVERY single substitution (all 255 other byte values at every position), deletion, duplication, unequal adjacent transposition and proper prefix, and every wrong length-field and wrong checksum value, is decoded by the real decoder; the result must be an error or exactly the original frame. The fault space of one frame is finite, so it is enumerated completely rather than sampled.",
    note="Base-frame set is finite and listed in the evidence; soundness of 'Ok(original)' exceptions argued in DESIGN.md."),
  "C03": dict(engine="E1 enum", sec="4/C03", technique="bounded-exhaustive string enumeration (all strings up to length L; all strings within edit distance k of valid bases) compared with an independent parser",
-   text="All strings over the 28-symbol structural alphabet up to length 5 (quick) / 6 (thorough), every string within edit distance 1-2 (3 on the shortest bases) of ~75 valid and near-valid bases, and every position x all 256 byte values on long bases are decoded by the real decoder and by a hand-written index-arithmetic reference parser; class, reported fields, accepted frame and re-encoding must agree and nothing may panic.",
+   text="All strings over the 28-symbol structural alphabet up to length 5 (quick) / 6 (thorough), every string within edit distance 1-2 (3 on the shortest bases) of ~75 valid and near-valid bases, every position x all 256 byte values on long bases, and all pairs/triples of representative strings decoded in sequence on a fresh thread, are decoded by the real decoder and by a hand-written index-arithmetic reference parser; class, reported fields, accepted frame and re-encoding must agree and nothing may panic.",
    note="Trusts the 45-line reference parser; acceptance needs >= 11 bytes so it is reached through the neighbourhoods, not through the short-string sweep."),
  "C04": dict(engine="E1 enum", sec="4/C04", technique=E1,
    text="All 256 types x all 256 first data bytes x lengths {0,1,2,3,16,255} x 5 addresses x tail variants, and all 65536 addresses for each of the 30 recognised codes, type-0 frames and near-miss codes, go Frame -> Message -> Frame through the real conversions and are compared with a literal copy of the protocol table.",
    note="Trusts the literal table in refmodel.rs (STATES, OPS, ref_classify)."),
  "C05": dict(engine="E1 enum", sec="4/C05", technique=E1,
-   text="Every constructible specific message of the enumerated domain (2.3 M: all offsets/counts/addresses, all 13 states, all 6 operations, SendData of every length 0..=255) is taken message -> frame -> wire bytes -> frame -> message with both encodings and compared; injectivity is decided by sorting all wire encodings and re-checking equal fingerprints on the real bytes.",
+   text="Every constructible specific message of the enumerated domain (2.3 M: all offsets/counts/addresses, all 13 states, all 6 operations, SendData of every length 0..=255) is taken message -> frame -> wire bytes -> frame -> message with both encodings and compared; injectivity is decided by sorting all wire encodings and re-checking equal fingerprints on the real bytes; call sequences of colliding messages run on a fresh thread.",
    note="Data contents are fill patterns; the conversion does not branch on data values beyond the first byte of 1-byte frames (covered by C04)."),
 }
 
 CHECKS.update({
  "C17": dict(engine="E2 bfs (differential)", sec="4/C17", technique=E2 + ", differential: the same actions drive the full serial path and a direct bus in lock-step; plus exhaustive fault injection at the bridge",
-   text="The real Sign -> SerialSignBus -> in-process byte pipe -> Odk -> VirtualSignBus path and an identical VirtualSignBus driven directly are explored together, breadth-first to a fixed point: at controller level (configure, configure_if_needed, send_pages of 4 lists, show, load_next, shut_down, reconfigure as another type, an absent address; 11 types x both flip styles) and at message level (R2 alphabet plus 0/1/15-byte chunks). After every step success/failure, replies and all signs' state/type/pages must agree, no byte may be left on the wire, and every bridge call must have forwarded exactly the table-decoding of the line it read and written back a frame iff the bus replied. Every reply/malformed line x {reply, silence} x {read error at every call index, write error, bus error} is injected at a bridge on a scripted port.",
+   text="The real Sign -> SerialSignBus -> in-process byte pipe -> Odk -> VirtualSignBus path and an identical VirtualSignBus driven directly are explored together, breadth-first to a fixed point: at controller level (configure, configure_if_needed, send_pages of 4 lists, show, load_next, shut_down, reconfigure as another type, an absent address; 11 types x both flip styles) and at message level (R2 alphabet plus 0/1/15-byte chunks). After every step success/failure, replies and all signs' state/type/pages must agree, no byte may be left on the wire, and every bridge call must have forwarded exactly the table-decoding of the line it read and written back a frame iff the bus replied. Every reply/malformed line x {reply, silence} x {read error at every call index, write error, bus error} is injected at a bridge on a scripted port, and every line is followed by a valid second line through the same bridge.",
    note="Single-threaded duplex (the bridge runs inside the controller's port write); pauses skipped through the seam; a refused request is 'no reply' directly and a read failure on the wire."),
 
  "C08": dict(engine="E2 bfs", sec="4/C08", technique=E2 + "; the action alphabet is the union of raw bus messages (which generate every prior state) and whole operations of the real controller",
@@ -35,7 +35,7 @@ CHECKS.update({
    note="Modelling assumption on earlier traffic's configuration blocks stated in the evidence; page contents are 4 patterns; thorough adds 6 addresses, richer chunks and a bystander sign."),
 
  "C09": dict(engine="E3 tree + responding bus", sec="4/C09", technique="exhaustive enumeration of (sign type, address, page list, retry schedule, unacknowledged attempt) against the real controller, judged by a trace predicate",
-   text="Every combination of the 11 sign types x 4 addresses x retry schedules {S,FS,FFS,FFF} x {configure, send_pages over a table of page lists: 0..16 pages, every page size 16k bytes for k=1..24 (64 thorough) and 255,256,257,4095,4096 (the 16-bit offset limit), mixed sizes, a list of exactly 65535 chunks} x {every attempt acknowledged, or the n-th receive request answered by silence / another operation's ack / a foreign ack / a report} is run on the real Sign against a recording bus; the recorded conversation is judged by a trace predicate (ack before data in every attempt, per-item offsets 0,16,32.., chunks <= 16 bytes, concatenation == item, count == chunks since the request, query after count).",
+   text="Every combination of the 11 sign types x 4 addresses x retry schedules {S,FS,FFS,FFF} x {configure, send_pages over a table of page lists: 0..16 pages, every page size 16k bytes for k=1..24 (64 thorough) and 255,256,257,4095,4096 (the 16-bit offset limit), mixed sizes, a list of exactly 65535 chunks} x {every attempt acknowledged, or the n-th receive request answered by silence / another operation's ack / a foreign ack / a report, or the j-th data chunk answered by a stray report} is run on the real Sign against a recording bus; the recorded conversation is judged by a trace predicate (ack before data in every attempt, per-item offsets 0,16,32.., chunks <= 16 bytes, concatenation == item, count == chunks since the request, query after count).",
    note="Transfers above 65535 chunks or pages above 64 KiB are outside the property (16-bit fields); contents are position-identifying fills."),
  "C10": dict(engine="E3 tree", sec="4/C10", technique="stateless exhaustive reply-tree enumeration (every reply of a 47-symbol alphabet at every step, by prefix re-execution of the real operation) compared with a reference controller automaton",
    text="The complete reply tree of configure, configure_if_needed, send_pages([],[p],[p,q]), show_loaded_page, load_next_page and shut_down is enumerated on the real Sign: at every step every one of 47 replies (13 states x own/foreign, 6 acks x own/foreign, none, goodbye, unknown frame, 6 kinds of bus failure) is offered until the operation returns (3.5 M leaves quick; polling loops cut at a stated horizon, cut prefixes still checked). Every leaf's exact message list and outcome class is compared with a reference automaton of the documented protocol, and a bus error must be the injected one.",
@@ -48,22 +48,22 @@ CHECKS.update({
    text="For every size of an exhaustive box (incl. 0 and heights not a multiple of 8), the real sign sizes and 33x33, and 5 kinds of start page (new; borrowed bytes with non-standard header/padding and 00/FF/fill data; owned bytes): every in-bounds set/clear, set_all true/false and every listed out-of-bounds coordinate (incl. y inside the column's last byte) is executed on the real Page and judged on exactly the observables the statement lists. All sequences of operations are covered by a breadth-first closure to the fixed point (all 2^n pixel states) on tiny pages in lock-step with a boolean grid.",
    note="Header bytes 1..3 and unused high bits are recorded, not judged; closure only on pages up to 18 pixels."),
  "C07": dict(engine="E1 enum", sec="4/C07", technique=E1,
-   text="For every (id,width,height) of the boxes and the real/large sizes: Page::new bytes against the layout formula; every pixel set/read/cleared on a blank page must change exactly bit y%8 of byte 4+x*ceil(h/8)+y/8 (so the pixel-to-bit map is checked injective pixel by pixel); from_bytes for every candidate length around the padded size and over the page's own bytes, owned and borrowed.",
+   text="For every (id,width,height) of the boxes and the real/large sizes: Page::new bytes against the layout formula; every pixel set/read/cleared on a blank page must change exactly bit y%8 of byte 4+x*ceil(h/8)+y/8 (so the pixel-to-bit map is checked injective pixel by pixel); from_bytes for every candidate length around the padded size (owned and borrowed) and over the page's own bytes; the pixel map is also checked on pages over borrowed bytes.",
    note="Trusts the statement's formula as coded in refmodel.rs; large sizes visit boundary pixels only in the quick tier."),
  "C15": dict(engine="E3 tree + E4 devices", sec="4/C15", technique="exhaustive enumeration of environment answer scripts (fragment sizes, interrupts, zero/short transfers, hard errors at every call index) against the real Frame::read/write",
    text="The real Frame::read and Frame::write run against a scripted stream whose every call is answered from a finite script: every composition of short streams into delivery sizes, every subset of interrupted calls among the first m calls, a hard error of 4 kinds and a premature Ok(0) at every call index, <=2 interrupts combined with a terminal fault anywhere on longer streams; likewise for the sink. After every read the stream position must be exactly the end of the first line and the result must equal the reference decoding of that line; writes must deliver exactly the encoding or fail with an I/O error and stop.",
    note="Streams are a fixed list of 14 (1-3 frames, invalid lines, trailing bytes, 255-byte frame); scripts enumerated exhaustively within the stated lengths."),
  "C16": dict(engine="E3 tree + E4 devices", sec="4/C16", technique="exhaustive enumeration of (message, reply line, fault position) against the real SerialSignBus on a scripted port",
-   text="Every message of a 75-message list (all kinds, boundary parameters, unknown frames that share the type byte of reply-expecting messages) x every reply line (all 13 reports, 6 acks, other kinds, 8 malformed shapes, empty, timeout) followed by a sentinel line, plus a fault at every write and read call index, is sent through one real SerialSignBus; bytes written, read calls, input position and the returned value are judged against the reference encoder/decoder/table.",
+   text="Every message of a 326-message list (all kinds, every data length 0..=255, boundary parameters, unknown frames that share the type byte of reply-expecting messages) x every reply line (all 13 reports, 6 acks, other kinds incl. 254/255-byte lines, 8 malformed shapes, empty, timeout) followed by a sentinel line, plus a fault at every write and read call index, plus failure-then-clean sequences on the same bus, is sent through one real SerialSignBus; bytes written, read calls, input position and the returned value are judged against the reference encoder/decoder/table.",
    note="Needs the sleep seam only to avoid real waiting; reply alphabet finite and listed."),
  "C18": dict(engine="E3 tree + real clock", sec="4/C18", technique="exhaustive enumeration of ordered message pairs x reply kinds on a virtual clock; candidates confirmed on the real clock; real-clock pass over all kinds",
-   text="Every ordered pair of 47 message kinds x every reply kind is run through one real SerialSignBus with pauses captured by the sleep seam; the event log must show >= 30 ms of pause between a data chunk's last port write and the next message's first port write, >= 100 ms between reading an in-progress report and returning, and < 30 ms otherwise. A candidate violation is reported only if a real-clock measurement agrees (so a bypassed seam cannot raise an alarm); a real-clock pass measures every kind once (lower bounds; minimum over 5 repetitions for unpaced exchanges).",
+   text="Every ordered pair of 47 message kinds x every combination of 25 reply kinds (incl. echoed controller frames) for both messages is run through one real SerialSignBus with pauses captured by the sleep seam; the event log must show >= 30 ms of pause between a data chunk's last port write and the next message's first port write, >= 100 ms between reading an in-progress report and returning, and < 30 ms otherwise. A candidate violation is reported only if a real-clock measurement agrees (so a bypassed seam cannot raise an alarm); a real-clock pass measures every kind once (lower bounds; minimum over 5 repetitions for unpaced exchanges).",
    note="Time itself is measured, not enumerated; trusts the two-line seam, cross-checked by the real-clock pass."),
  "C19": dict(engine="E1 enum", sec="4/C19", technique=E1,
-   text="All 11 types (block fields vs dimensions; a real VirtualSign configured with the block stores exactly a page of the type's size and rejects neighbouring sizes), all 65536 (family,id) pairs with the other 14 bytes varied, every length 0..=40, and every single-byte variation of every real block are decoded and compared with a literal table.",
+   text="All 11 types (block fields vs dimensions; a real VirtualSign configured with the block stores exactly a page of the type's size and rejects neighbouring sizes), all 121 ordered pairs of types (failed attempt with A, retry with B), all 65536 (family,id) pairs with the other 14 bytes varied, every length 0..=600 and lengths = 16 mod 256 / mod 65536, and every single-byte variation of every real block are decoded and compared with a literal table.",
    note="Trusts the literal table SIGN_TYPES."),
  "C20": dict(engine="E3 tree + E4 devices", sec="4/C20", technique="exhaustive product of prior port settings x constructors x a fault at each configuration call, on a scripted SerialDevice",
-   text="14 prior baud values x 4 char sizes x 3 parities x 2 stop bits x 3 flow controls x 3 prior timeouts x {SerialSignBus::try_new, Odk::try_new, configure_port with 4 timeouts} x {no fault, or each of 4 configuration calls failing with 3 error kinds} = 236k constructions on a scripted device that records every call; resulting line settings, timeout, call order and error propagation are judged.",
+   text="14 prior baud values x 4 char sizes x 3 parities x 2 stop bits x 3 flow controls x 3 prior timeouts x {SerialSignBus::try_new, Odk::try_new, configure_port with 4 timeouts} x {no fault, or each of 4 configuration calls failing with 3 error kinds, on every occurrence or only the 1st/2nd/3rd} = 943k constructions on a scripted device that records every call; resulting line settings, timeout, call order and error propagation are judged.",
    note="Trusts serial-core's blanket reconfigure; the settings type is the harness's own so every call can be made to fail."),
 
  "C12": dict(engine="E2 bfs", sec="4/C12", technique=E2 + "; plus directed exhaustive sweeps of configuration fields and 70000-step counter chains",
